@@ -111,10 +111,13 @@ def apply(items, muts, rng):
                     it["chain"] = chains[0]
                     it["resi"] += 500
     if "water_as_atom" in muts:
+        choice = {}
         for it in items:
             if isinstance(it, dict) and it["resn"] in ("HOH", "WAT"):
-                it["rec"] = rng.choice(["ATOM", "HETATM"])
-                it["resn"] = rng.choice(["HOH", "WAT"])
+                k = (it["chain"], it["resi"], it["icode"])
+                if k not in choice:      # one record type and one residue name per water molecule
+                    choice[k] = (rng.choice(["ATOM", "HETATM"]), rng.choice(["HOH", "WAT"]))
+                it["rec"], it["resn"] = choice[k]
     pdbfmt.renumber(items)
 
     lines = [pdbfmt.fmt_atom(it) if isinstance(it, dict) else it for it in items]
@@ -164,7 +167,7 @@ def apply(items, muts, rng):
     if "end_midfile" in muts:
         idx = [i for i, ln in enumerate(lines) if ln.startswith(("ATOM", "HETATM"))]
         # between two residues of the first model
-        cands = [i for i in idx[1:] if lines[i][17:27] != lines[i - 1][17:27] and lines[i - 1].startswith(("ATOM", "HETATM"))]
+        cands = [i for i in idx[1:] if lines[i][21:27] != lines[i - 1][21:27] and lines[i - 1].startswith(("ATOM", "HETATM"))]
         first_model_end = next((i for i, ln in enumerate(lines) if ln.startswith("ENDMDL")), len(lines))
         cands = [i for i in cands if i < first_model_end]
         if cands:
